@@ -385,3 +385,32 @@ for ltype in ('WITH', 'COUNTED'):
     c.ensures('both-bounds-first-then-the-variable',
               "result is True ==> is_seg(emitted(_p)[0], 'value') and is_seg(emitted(_p)[1], 'value') and instr(emitted(_p)[2], 'MOVE', LoopVar.FIRST) "
               "and emitted(_p)[2].param1 == _v and no_instr(emitted(_p)[3:], 'MOVE')")
+
+
+# ---- parse_file: the verdict of compiling the file's text (falsy for a rejected text, a missing or unreadable file), so that
+#      ScriptJob.load_file never takes the half-built code of a rejected file for a program
+for outcome in ('compiles', 'rejected', 'missing', 'unreadable'):
+    c = contract(P, 'Parser.parse_file', serves=['C06', 'C20', 'C17'], name='Parser.parse_file[%s]' % outcome)
+    def _setup(b, case, outcome=outcome):
+        from pyvc.values import Opaque, PyList, Builtin
+        pr = PL.parser(b)
+        text = b.sym('str', 'file_text')
+        parsed = b.ghost('parsed', PyList())
+        verdict = {'compiles': True, 'rejected': False}.get(outcome)
+        pr.attrs['parse'] = Builtin('parse', lambda I_, a, k: (parsed.items.append(a[0]), verdict)[1])
+        pr.attrs['_code_gen'].attrs['_code'] = PyList([b.sym('int', 'half_built_instruction')])     # what a rejected compile leaves behind
+        def _open(I_, a, k):
+            if outcome == 'missing':
+                I_.raise_builtin('FileNotFoundError', 'no such file')
+            if outcome == 'unreadable':
+                I_.raise_builtin('OSError', 'permission denied')
+            return Opaque('file', {'read': lambda I2, o, a2, k2: text, 'close': lambda I2, o, a2, k2: None,
+                                   '__enter__': lambda I2, o, a2, k2: o, '__exit__': lambda I2, o, a2, k2: None})
+        b.ghost('open', _open)
+        return {'self': pr, 'file_name': b.sym('str', 'file_name'), '_text': text}
+    c.setup(_setup)
+    c.crosscheck = False
+    if outcome == 'compiles':
+        c.ensures('truthy-and-compiled-exactly-this-text', "not falsy(result) and len(ghost('parsed')) == 1 and ghost('parsed')[0] is _text")
+    else:
+        c.ensures('falsy', 'falsy(result)')
